@@ -58,37 +58,39 @@ def r10a(model, ctx):
                         ctx.viol(R, f"{rel}:{m.qualname_of(n)}:_init", f"{rel} assigns `{unparse(t)}` directly, bypassing "
                                  f"_get_init_value", f"{rel}:{n.lineno}")
     # Signal.like and friends pass init through the constructor
-    f = model.func(f"{AST_PY}::_get_init_value")
-    g = CFG(f, inline_closures=False)
-    rets = [nid for nid, s in g.stmt.items() if isinstance(s, ast.Return)]
-    need(len(rets) == 2, f"_get_init_value: expected 2 return sites, found {len(rets)}")
-    for r in rets:
-        v = g.stmt[r].value
-        okc = pmatch("Const(init.value, shape).value", v) is not None
-        oks = unparse(v) == "init.value"
-        if oks:
-            # shape-castable path: dominated by the shape equality check that raises
-            chk = [nid for nid, s in g.stmt.items() if isinstance(s, ast.If) and unparse(s.test) == "init.shape() != Shape.cast(shape)"
-                   and isinstance(s.body[-1], ast.Raise)]
-            oks = len(chk) == 1 and g.dominates({chk[0]}, r)
-        ctx.check(okc or oks, R, f"_get_init_value:return@{'const' if okc else 'castable'}",
+    # path summaries of _get_init_value with module-level helpers expanded; conditions are over the parameters
+    # (orig_init / orig_shape are aliases of `init` / `shape` taken before they are re-bound)
+    from ..engine import refsem
+    f, paths = refsem.method_paths(model, f"{AST_PY}::_get_init_value", max_paths=4000)
+    rets = [p for p in paths if p.how == "return"]
+    need(len(rets) >= 2, f"_get_init_value: expected at least 2 returning paths, found {len(rets)}")
+    kinds = {}
+    for p in rets:
+        v = p.ret
+        okc = v is not None and pmatch("Const(_V_X.value, Shape.cast(shape)).value", v) is not None
+        oks = False
+        if not okc and v is not None and isinstance(v, ast.Attribute) and v.attr == "value":
+            # shape-castable path: the constant's shape was compared with the target shape on this path (mismatch raises)
+            tgt = unparse(v.value)
+            oks = any((not pol) and unparse(t) in (f"{tgt}.shape() != Shape.cast(Shape.cast(shape))", f"{tgt}.shape() != Shape.cast(shape)")
+                      for t, pol in p.conds) or \
+                any(pol and unparse(t) in (f"{tgt}.shape() == Shape.cast(Shape.cast(shape))", f"{tgt}.shape() == Shape.cast(shape)")
+                    for t, pol in p.conds)
+        kinds.setdefault("const" if okc else "castable", []).append((okc or oks, p))
+    for kind, items in sorted(kinds.items()):
+        bad = [p for ok_, p in items if not ok_]
+        ctx.check(not bad, R, f"_get_init_value:return@{kind}",
                   "returns Const(value, shape).value / a shape-checked constant's value",
-                  f"_get_init_value returns `{unparse(v)}`: every exit must return the value wrapped through Const in the target "
-                  f"shape (or the value of a constant whose shape was compared with the target)", f"{AST_PY}:{g.lineno(r)}")
-    # the range check: tests the given integer, raises SyntaxError, and dominates the Const return
-    rng = [nid for nid, s in g.stmt.items() if isinstance(s, ast.If) and "isinstance(orig_shape, range)" in unparse(s.test)]
-    ok = len(rng) == 1
-    if ok:
-        s = g.stmt[rng[0]]
-        t = unparse(s.test)
-        ok = "orig_init not in orig_shape" in t and "orig_init is not None" in t and \
-            all(isinstance(x, ast.Raise) and "SyntaxError" in unparse(x) for b in (s.body[0].body, s.body[0].orelse) for x in b[-1:]) \
-            if isinstance(s.body[0], ast.If) else False
-        const_ret = [r for r in rets if pmatch("Const(init.value, shape).value", g.stmt[r].value) is not None]
-        ok = ok and len(const_ret) == 1 and g.dominates({rng[0]}, const_ret[0])
-        # orig_init is never re-assigned (it must stay the caller's value)
-        reassigned = [n for n in ast.walk(f) if isinstance(n, ast.Assign) and any(unparse(t_) == "orig_init" for t_ in n.targets)]
-        ok = ok and len(reassigned) == 1 and unparse(reassigned[0].value) == "init"
+                  f"_get_init_value returns `{unparse(bad[0].ret) if bad else ''}`: every exit must return the value wrapped through "
+                  f"Const in the target shape (or the value of a constant whose shape was compared with the target)",
+                  f"{AST_PY}:{bad[0].lineno if bad else f.lineno}")
+    # the range check: no returning path of the plain-shape branch is consistent with "shape is a range, an initial value
+    # was given, and it is not an element of the range" — and that situation raises SyntaxError
+    bad_facts = {"isinstance(shape, range)": True, "init is None": False, "init in shape": False, "isinstance(shape, ShapeCastable)": False}
+    leaks = [p for ok_, p in kinds.get("const", []) if refsem.feasible_under(p, bad_facts)]
+    raises = [p for p in paths if p.how == "raise" and p.ret is not None and "SyntaxError" in unparse(p.ret) and
+              refsem.feasible_under(p, bad_facts)]
+    ok = not leaks and bool(raises)
     ctx.check(ok, R, "_get_init_value:range-check", "`orig_init not in orig_shape` on the un-wrapped value, raising SyntaxError, before the wrap",
               "a range-shaped target must reject (SyntaxError) an initial value that is not an element of the range, testing the "
               "integer as given (`orig_init`), not the value after wrapping to the shape's width", f"{AST_PY}:{f.lineno}")
@@ -142,6 +144,17 @@ def r10a(model, ctx):
                               f"{q} stores a memory row directly", f"{MEM}:{n.lineno}")
 
 
+def _const_unsigned_hook(e, canon):
+    """Const(X, unsigned(N)).value is X reduced modulo 2**N, i.e. X & mask(N)"""
+    if isinstance(e, ast.Attribute) and e.attr == "value" and isinstance(e.value, ast.Call) and dotted(e.value.func) == "Const" and \
+            len(e.value.args) == 2 and isinstance(e.value.args[1], ast.Call) and dotted(e.value.args[1].func) == "unsigned" and \
+            len(e.value.args[1].args) == 1:
+        x, n = e.value.args[0], e.value.args[1].args[0]
+        return canon.bits(ast.BinOp(left=x, op=ast.BitAnd(), right=ast.BinOp(
+            left=ast.BinOp(left=ast.Constant(value=1), op=ast.LShift(), right=n), op=ast.Sub(), right=ast.Constant(value=1))))
+    return None
+
+
 def r10b(model, ctx):
     R = "R-10b"
     f = model.func(f"{AST_PY}::Const.cast")
@@ -154,10 +167,13 @@ def r10b(model, ctx):
         paths = run_paths(loops[0].body)
         ok = len(paths) == 1
         if ok:
+            from ..engine.bitalg import Canon
             env = paths[0].env
-            ok = unparse(env["value"]) == "value | Const(Const.cast(part).value, unsigned(len(Const.cast(part)))).value << width" and \
-                unparse(env["width"]) == "width + len(Const.cast(part))"
-    ret = [s for s in lf.body if isinstance(s, ast.Return)]
+            cn = Canon(atom_hook=_const_unsigned_hook)
+            ok = "value" in env and "width" in env and \
+                cn(env["value"]) == cn(ast.parse("value | (Const.cast(part).value & ((1 << len(Const.cast(part))) - 1)) << width", mode="eval").body) and \
+                cn(env["width"]) == cn(ast.parse("width + len(Const.cast(part))", mode="eval").body)
+    ret = [s for s in ast.walk(ast.Module(body=lf.body, type_ignores=[])) if isinstance(s, ast.Return)]
     ok = ok and len(ret) == 1 and unparse(ret[0].value) == "Const(value, width)"
     ctx.check(ok, R, "Const.cast:Concat", "value |= unsigned(part) << width; width += len(part); Const(value, width)",
               "constant-casting a concatenation must or-in each part reinterpreted as unsigned(len(part)) at the running width "
